@@ -27,8 +27,7 @@ ENCODED = ['System.__init__/add_asset/simulate/_initialize_assets/find_assets', 
            'constructors and initialize of Source, PartHandler, PartProcessor, Buffer, DecisionGate, PartBatcher, Sink, GroupPath, '
            'Maintainer, ActionScheduler, Sensor, PeriodicSensor, OutputPartSensor, Cms', 'Source.adjust_part_count']
 ASSUMPTIONS = ['a late cell is compared with its twin on observable records (times, counts, states); asset ids and names are not compared',
-               'uptime of a late-created processor is compared by increments after creation only (whether a machine born at tc was '
-               '"up" since 0 or since tc is not settled by the statement)']
+               'uptime of a late-created processor counts from its creation (it must equal the twin\'s uptime, which counts from 0)']
 
 # kind -> Asset classes covered by that cell
 RECIPES = {
@@ -169,7 +168,7 @@ def _cell(kind, system, args, ctx, created_at):
                 o += [('x', r[0]) for r in data('received_part', 'x')]
             if kind == 'processor':
                 o += [('produced', r[0]) for r in data('produced_part', 'x')]
-                o.append(('uptime_increment', x.uptime - created_at_uptime[0]))
+                o.append(('uptime_total', x.uptime))        # a machine born at tc has been up since tc, like its twin since 0
             if kind == 'outputpart':
                 o += [('sensed', t) for t in sensed]
             return o
@@ -228,7 +227,7 @@ def _context(kind, system, args):
 def _shift(obs, dt, z):
     out = []
     for o in obs:
-        if o[0] in ('accepted', 'state', 'n', 'last', 'uptime_increment'):
+        if o[0] in ('accepted', 'state', 'n', 'last', 'uptime_total'):
             out.append(o)
         else:
             out.append((o[0], z(o[1]) + dt) + tuple(o[2:]))
